@@ -205,6 +205,11 @@ def evaluate(ctx, r, harness, drv, tag, ins, outs, mons):
     hname = os.path.basename(harness)
     rc2, mout = sh([drv], input='\n'.join(ins) + '\n', timeout=1800)
     mouts = [x for x in mout.split('\n') if x.startswith('OUT ')]
+    mblk = {}
+    for x in mout.split('\n'):
+        if x.startswith('BLK '):
+            q = x.split(' ')
+            mblk[(q[1], q[2])] = (q[3], q[4])
     if rc2 != 0:
         r.hits.append(Hit('tie', 'C18:driver', 'model driver failed rc=%d: %s' % (rc2, mout[-400:]), {}))
     diffs, ncases = diff_lines(ctx, outs, mouts)
@@ -216,6 +221,24 @@ def evaluate(ctx, r, harness, drv, tag, ins, outs, mons):
         p = m.split(' ')
         key = (p[1], p[2])
         f = dict(x.split('=') for x in p[3:])
+        # block ledger of the model (Model/ErasedBlocks.v: live heap blocks after every step, blocks left when all
+        # wrappers are gone) against the allocation monitor of the harness
+        if key in mblk and 'live' in f:
+            il = f['live'].split('.')
+            if len(il) > 1 and il[-1] == f.get('blocks_leaked'):
+                il = il[:-1]            # the harness's last step is the scope exit: what is live then is blocks_leaked
+            if ('.'.join(il), f.get('blocks_leaked')) != mblk[key]:
+                r.hits.append(Hit('corr', 'C18:%s%s:blocks' % (p[1], tag),
+                                  'allocation monitor and the block ledger of the model differ (%s): live blocks per step impl %s model %s, '
+                                  'left at scope exit impl %s model %s; history %s'
+                                  % (hname, f['live'], mblk[key][0], f.get('blocks_leaked'), mblk[key][1], inmap.get(key, '?')[:400]),
+                                  {'harness': hname, 'case': inmap.get(key), 'monitor': m, 'model_blocks': mblk[key]}))
+            else:
+                r.count('blocks_agree%s' % tag)
+                if mblk[key][1] != '0':
+                    r.count('blocks_leak_predicted%s:%s' % (tag, p[1]))
+        elif p[1] != 'TYPES':
+            r.hits.append(Hit('tie', 'C18:blocks', 'no block ledger line for case %s %s' % key, {}))
         for k in MON_FIELDS:
             if f.get(k, '0') != '0':
                 r.hits.append(Hit('monitor', 'C18:%s%s:%s' % (p[1], tag, k),
